@@ -76,7 +76,7 @@ func verifOp20(f *verifMgr, op int, chids [2]datatransfer.ChannelID, label strin
 		req.VoucherPtr = zz.Node(label + ".rv")
 		_ = f.rcv.receiveRequest(ctx, other, req)
 	case 16:
-		_ = m.UpdateValidationStatus(ctx, chids[1], datatransfer.ValidationResult{Accepted: true})
+		_ = m.UpdateValidationStatus(ctx, chids[1], datatransfer.ValidationResult{Accepted: true, DataLimit: zz.Uint64(label + ".limit")})
 	case 17:
 		_ = m.CloseDataTransferChannelWithError(ctx, chids[1], zz.Error(label+".err"))
 	}
@@ -101,6 +101,12 @@ func verifConcreteTwoChannels() (*verifMgr, [2]datatransfer.ChannelID) {
 	}
 	c0 := mk(self, other, self, other, 1)
 	c1 := mk(other, self, self, other, 2)
+	// both transfers have moved data already: the block-index and progress caches hold entries
+	// for them (a cold cache serialises the first report behind the write lock)
+	_, _ = f.m.OnDataQueued(c0, verifLink("warm.l0"), 10, 1, true)
+	_ = f.m.OnDataSent(c0, verifLink("warm.l0"), 10, 1, true)
+	_, _ = f.m.OnDataQueued(c1, verifLink("warm.l1"), 10, 1, true)
+	_ = f.m.OnDataSent(c1, verifLink("warm.l1"), 10, 1, true)
 	return f, [2]datatransfer.ChannelID{c0, c1}
 }
 
@@ -126,12 +132,12 @@ func verifConcurrent20(n int) {
 
 // VerifC20_ConcurrentAPI: two concurrent operations.
 //
-//verif:opts race preempt=sync sched=3 part0=8 part1=2 novalidate
+//verif:opts race preempt=sync pb=1 sched=3 part0=8 part1=2 novalidate
 func VerifC20_ConcurrentAPI() { verifConcurrent20(2) }
 
 // VerifC20_StopWhileActive: stopping the manager while an operation is in flight returns.
 //
-//verif:opts race preempt=sync sched=3 novalidate
+//verif:opts race preempt=sync pb=1 sched=3 novalidate
 func VerifC20_StopWhileActive() {
 	f, chids := verifConcreteTwoChannels()
 	op := zz.Choice("op", verifNumOps20)
@@ -148,7 +154,7 @@ func VerifC20_StopWhileActive() {
 // sends vouchers / voucher results / validation updates, or pauses, resumes or closes channels,
 // while the triggering call is still in progress: every call returns.
 //
-//verif:opts race preempt=sync sched=2 novalidate
+//verif:opts race preempt=sync pb=1 sched=2 novalidate
 func VerifC20_ReentrantSubscriber() {
 	f, chids := verifConcreteTwoChannels()
 	inner := zz.Choice("inner", 8)
@@ -190,5 +196,5 @@ func VerifC20_ReentrantSubscriber() {
 // (more interleavings of the lock operations: lock-order inversions need specific ones).
 //
 //verif:tier thorough
-//verif:opts race preempt=sync sched=6 part0=8 part1=2 novalidate
+//verif:opts race preempt=sync pb=2 sched=4 part0=8 part1=2 novalidate
 func VerifC20_ConcurrentAPIDeep() { verifConcurrent20(2) }
